@@ -1,5 +1,6 @@
 """C02 — RFC 9180 wire conformance: wiring of the key schedule, labeled KDF, suite ids, tables
 (DESIGN §5 C02: R02.1 … R02.8)."""
+from .. import booldec
 from ..prov import get_an, pp, bytes_of, strip_sites, unref, walk
 from ..tyutil import typenum_usize
 from .common import all_ans, bodies_calling, where, aggregates_of, impl_bodies
@@ -200,6 +201,14 @@ def find_labeled_expand(facts):
     return [b for b in bs if not b.default_of]
 
 
+def _kdf_nh(facts, im):
+    ht = im['types'].get('HashImpl', {}).get('ty', '')
+    for k2, v2 in facts.derived.get(ht, {}).items():
+        if k2.endswith('OutputSizeUser::OutputSize'):
+            return v2.get('usize')
+    return None
+
+
 def check_labeled_expand(rep, facts, rule='R02.4'):
     bs = find_labeled_expand(facts)
     if not rep.floor(rule, 'LabeledExpand impls', len(bs), 1):
@@ -243,6 +252,21 @@ def check_labeled_expand(rep, facts, rule='R02.4'):
                 rep.note('%s: early Err return %s (agrees with HKDF\'s own bound since 255*Nh <= 65535)' % (fn, pp(t)))
             else:
                 rep.bad(rule, fn, 'return', pp(t)[:160], 'only the HKDF result or an error is returned', where(a, s))
+        # an early length guard may only turn down lengths HKDF itself turns down for *every* KDF: each L <= 255*Nh
+        # (Nh over all Kdf impls, and the values next to every constant the guard compares with) must reach the expand call
+        nhs = sorted(set(x for x in (_kdf_nh(facts, im) for im in facts.impls_of('kdf::Kdf')) if x))
+        try:
+            ks = booldec.len_thresholds(a)
+            legal_max = 255 * max(nhs) if nhs else 0
+            reps = sorted(set([0, 1] + [255 * n for n in nhs] + [255 * n - 1 for n in nhs] +
+                              [k + d for k in ks for d in (-1, 0, 1) if 0 <= k + d <= legal_max]))
+            _, rows = booldec.len_grid_table(a, [5], reps=reps)
+            early = [env[5] for env, rt, site in rows if not (rt[0] == 'call' and len(rt) > 3 and rt[3] == bi)]
+            rep.check(not early and bool(nhs), rule, fn, 'early-guard',
+                      'output lengths (of %s simulated, all <= 255*Nh_max = %d) that do not reach HKDF-Expand: %s' % (reps, legal_max, early or 'none'),
+                      'every legal length L <= 255*Nh reaches HKDF-Expand (an early guard only rejects what HKDF rejects)', where(a))
+        except booldec.Undecidable as e:
+            rep.undecided(rule, fn, 'early-guard', str(e), 'branches before the expand call compare out.len() with constants', where(a))
 
 
 # ---------------------------------------------------------------------- R02.5 key schedule
@@ -429,6 +453,8 @@ def run(ctx):
     check_labeled_extract(rep, facts)
     check_labeled_expand(rep, facts)
     check_key_schedule(rep, facts)
+    from .common import check_suite_parametric
+    check_suite_parametric(rep, facts, 'R02.9', floor=30)
     n6 = modes.check_opmode_impls(rep, facts, 'R02.6')
     rep.floor('R02.6', 'OpMode accessor impls', n6, 6)
     # R02.7 ephemeral key
